@@ -210,8 +210,9 @@ def main():
         })
     manifest = {
         'version': 1,
-        'setup_cmd': "/venv/bin/python -c 'import hypothesis' 2>/dev/null || /venv/bin/pip install --no-index "
-                     "--find-links /opt/veriftools/wheels hypothesis",
+        'setup_cmd': "(/venv/bin/python -c 'import hypothesis' 2>/dev/null || /venv/bin/pip install --no-index "
+                     "--find-links /opt/veriftools/wheels hypothesis) && (test -d .deps/atheris || /venv/bin/pip install "
+                     "--no-index --find-links /opt/veriftools/wheels --target .deps atheris >/dev/null 2>&1 || true)",
         'hooks': {
             'guard': 'TXDBUS_VERIF',
             'enable': 'no source hooks are needed: every observation point is reachable from outside (DESIGN.md 1.5)',
